@@ -172,6 +172,15 @@ class World:
             (o if s['target'] == 'inst' else self.cls).param.unwatch(self.handles[s['id']])
         elif k == 'watch':
             self.register(self.specs[op[1]])
+        elif k == 'watch_bad':
+            # a registration that names an unknown parameter is refused as a whole
+            s = self.specs[op[1]]
+            try:
+                (o if s['target'] == 'inst' else self.cls).param.watch(CB(self, s), list(s['names']) + ['nope'], onlychanged=s['onlychanged'])
+            except ValueError:
+                pass
+            else:
+                raise AssertionError('watch() accepted an unknown parameter name')
         elif k == 'open':
             cm = {'batch': param.parameterized.batch_call_watchers, 'discard': param.parameterized.discard_events,
                   'edit_constant': param.parameterized.edit_constant}[op[1]](o)
@@ -217,6 +226,8 @@ class World:
             m.op_trigger(op[1])
         elif k == 'unwatch':
             m.W[[w['id'] for w in m.W].index(self.specs[op[1]]['id'])]['active'] = False
+        elif k == 'watch_bad':
+            pass
         elif k == 'watch':
             i = [w['id'] for w in m.W].index(self.specs[op[1]]['id'])
             w = m.W.pop(i)
